@@ -1324,6 +1324,9 @@ class IndexInterp:
                     self._bind(s.target, res())
                 elif isinstance(cur, list) and isinstance(s.op, ast.Add):
                     cur.extend(self._iterate(rhs, s.value))
+                elif isinstance(cur, Matrix) and isinstance(rhs, Matrix) and isinstance(s.op, (ast.Add, ast.Sub)) and cur.shape == rhs.shape:
+                    # two arrays of one shape (`weights += unit_vector(...)`, also the normal form of `weights = weights + ...`): entry by entry
+                    self._bind(s.target, self._matrix_op(ast.BinOp(left=s.target, op=s.op, right=s.value), cur, rhs))
                 else:
                     self._bind(s.target, ("op", type(s.op).__name__, cur, rhs))
             elif isinstance(s, ast.For):
